@@ -386,9 +386,17 @@ def run_one(choices, params):
     def main_two(sim, k):
         """a serving thread and a requesting thread share connection A; the connection ends under the serving thread's read;
         the request blocked waiting (no expiry, or a long one) must fail with EOFError, not hang"""
+        hookwait = {"on": False, "waited": None}
+
         class SvcA(rpyc.Service):
             def on_disconnect(self, conn):
                 hooks["A_d"] += 1
+                if hookwait["on"]:
+                    # "called when the connection had already terminated": an application may wait here for its own threads
+                    # that were using the connection - they have been released by the time the hook runs
+                    t0 = sim.now
+                    sim.block(lambda: "out" in res, 20, "hook-waits-for-requester")
+                    hookwait["waited"] = sim.now - t0
 
         class SvcB(rpyc.Service):
             def on_disconnect(self, conn):
@@ -435,6 +443,7 @@ def run_one(choices, params):
             k.kill_connection(b_desc, "eof", "director: peer process gone")
         else:
             # a third local thread closes the connection while the requester is blocked waiting
+            hookwait["on"] = bool(c.draw(2))
             closer = sim.spawn(lambda: ca.close(), _name="A.closer")
             sim.count("c11:local-close-while-blocked")
         info["ops"].append(("end", how))
@@ -444,7 +453,8 @@ def run_one(choices, params):
         if res["out"] not in ("EOFError",):
             raise core.Violation("outcome/" + res["out"].split(":")[0], "pending request of the second thread ended with %r after %s" % (res["out"], how))
         if res["t"] - t_end > 5.0:
-            raise core.Violation("late-eof", "pending request failed %.1f virtual s after the connection ended" % (res["t"] - t_end))
+            raise core.Violation("late-eof", "pending request failed %.1f virtual s after the connection ended%s" % (
+                res["t"] - t_end, " (the disconnect hook was waiting for it: the hook ran before the transport was closed)" if hookwait["on"] else ""))
         sim.block(lambda: t1.state == core.DONE, 30, "wait-A-serving")
         if how == "local-close":
             # judged once close() has returned in the thread that called it
